@@ -525,6 +525,12 @@ def run(tier, seed, only=None):
         rep.log("%-45s paths=%d obl=%d nontriv=%d disch=%d cand=%d inconc=%d  %.1fs" % (
             "kernels (eval_mtx)", kinfo["paths"], s["obligations"], s["nontrivial"], s["discharged"], s["candidate"],
             s["inconclusive"], time.time() - t0))
+    if not only or any("Atmos" in o for o in only):
+        # AtmosComp: Akima pieces as concrete polynomials; derivative consistency per table interval (tolerance 1e-12,
+        # scipy rounds the derivative coefficients) - shared with C17
+        from props import c17
+
+        c17.atmosphere(rep, tier, timeout, kinds=("deriv", "ident"))
     for case in cases:
         t0 = time.time()
         try:
